@@ -11,6 +11,25 @@ VERIF = os.path.dirname(os.path.dirname(os.path.abspath(__file__)))
 PY = os.environ.get("VERIF_PYTHON", "/venv/bin/python")
 
 
+def _find_setarch():
+    import platform
+    import shutil as _sh
+
+    exe = _sh.which("setarch")
+    if not exe or os.environ.get("VERIF_ASLR") == "1":
+        return None
+    cmd = [exe, platform.machine(), "-R"]
+    try:
+        if subprocess.run(cmd + ["true"], capture_output=True, timeout=20).returncode == 0:
+            return cmd
+    except Exception:  # noqa: BLE001
+        pass
+    return None
+
+
+_SETARCH = _find_setarch()
+
+
 class Worker:
     def __init__(self, hashseed="0", repo=None):
         env = dict(os.environ)
@@ -19,8 +38,12 @@ class Worker:
         env["PYTHONDONTWRITEBYTECODE"] = "1"
         if repo:
             env["VERIF_REPO"] = repo
+        cmd = [PY, "-u", os.path.join(VERIF, "sim", "zygote.py")]
+        if _SETARCH:
+            # no address-space randomisation: object addresses (id()) are part of the repeatable execution
+            cmd = _SETARCH + cmd
         self.p = subprocess.Popen(
-            [PY, "-u", os.path.join(VERIF, "sim", "zygote.py")],
+            cmd,
             stdin=subprocess.PIPE,
             stdout=subprocess.PIPE,
             stderr=subprocess.DEVNULL,
